@@ -131,7 +131,9 @@ def explore(pool, modname, specname, params, max_depth, undedup_depth, prop_labe
         for h2, cb, od, ca, problems, err in level(frontier):
             record(h2, cb, od, ca, problems, err)
             acc.case(nontrivial=bool(ca and ca != cb), outcome="changed" if ca != cb else "unchanged")
-            if ca is not None and ca not in seen:
+            # a state reached through a violating transition is terminal (model and
+            # implementation no longer agree, so nothing beyond it is meaningful)
+            if ca is not None and not problems and ca not in seen:
                 seen[ca] = h2
                 nxt.append(h2)
         frontier = nxt
@@ -148,7 +150,7 @@ def explore(pool, modname, specname, params, max_depth, undedup_depth, prop_labe
         for h2, cb, od, ca, problems, err in level(front):
             record(h2, cb, od, ca, problems, err)
             all_hist += 1
-            if ca is not None:
+            if ca is not None and not problems:
                 nxt.append(h2)
                 if ca not in seen and depth <= depth_done:
                     conflicts.append(("state missed by dedup pass", h2))
